@@ -207,7 +207,7 @@ let handle (w : string list) : string =
     (* given: the topic's default for authenticated users (JRWPS) unless the owner sets it *)
     let g = if given = "-" then mode_of_string "JRWPS" else mode_of_string given in
     members := ((t, u), (mode_of_string want, g)) :: List.remove_assoc (t, u) !members;
-    if given = "-" then "MEMBER 200" else "MEMBER 200/200"
+    "MEMBER ok"
   | ["PUBX"; _; a; t; k; tpls] ->
     (* Topic.saveAndBroadcastMessage + messagesMapper.Save (Sys/FilesSaveC16b.v) for the acting user a:
        modes from the subscription (none: 0, 0), the k-th adapter call fails *)
